@@ -84,11 +84,10 @@ def readCharge (code : Str) : R Int :=
 /-- `element in 'AL'` (substring test on a `str`) -/
 def inAL (e : Str) : Bool := e == [] || e == ['A'] || e == ['L'] || e == ['A', 'L']
 
-/-- one atom line of the atom block -/
-def parseAtomLine (line : Str) : R PAtom := do
-  let charge ← readCharge (slice line 36 39)
-  let element := strip (slice line 31 34)
-  let isotope := slice line 34 36
+/-- the body of the atom loop on the seven column slices of one atom line -/
+def atomOfFields (code elemRaw isotope mapping xs ys zs : Str) : R PAtom := do
+  let charge ← readCharge code
+  let element := strip elemRaw
   if inAL element then throw .valueError
   let (element, iso, delta) ←
     if element == ['D'] then
@@ -98,12 +97,16 @@ def parseAtomLine (line : Str) : R PAtom := do
       let d ← intE isotope
       pure (element, none, some d)
     else pure (element, none, none)
-  let mapping := slice line 60 63
   let pm ← if mapping.isEmpty then pure 0 else intE mapping
-  let x ← floatE (slice line 0 10)
-  let y ← floatE (slice line 10 20)
-  let z ← floatE (slice line 20 30)
+  let x ← floatE xs
+  let y ← floatE ys
+  let z ← floatE zs
   pure { element, charge, isotope := iso, delta, map := pm, x, y, z }
+
+/-- one atom line of the atom block -/
+def parseAtomLine (line : Str) : R PAtom :=
+  atomOfFields (slice line 36 39) (slice line 31 34) (slice line 34 36) (slice line 60 63)
+    (slice line 0 10) (slice line 10 20) (slice line 20 30)
 
 /-- one bond line: `((a1, a2, order), stereo?)` -/
 def parseBondLine (line : Str) : R ((Int × Int × Int) × Option (Int × Int × Int)) := do
@@ -249,12 +252,20 @@ def writeAtomLine (mapping : Bool) (a : WAtom) : R Str := do
   pure (fmtF4 10 a.x ++ fmtF4 10 a.y ++ fmtF4 10 0 ++ sL " " ++ padRight 3 a.sym ++ sL " 0" ++ c ++
         sL "  0  0  0  0  0  0  0" ++ fmtD 3 m ++ sL "  0  0\n")
 
+/-- a wedge bond line: `{i:3d}{j:3d}  {order}  {1|6}  0  0  0` -/
+def wedgeText (i j o : Nat) (s : Int) : Str :=
+  fmtD 3 i ++ fmtD 3 j ++ sL "  " ++ natDigits o ++ sL "  " ++ (if s == 1 then sL "1" else sL "6") ++ sL "  0  0  0\n"
+
+/-- a plain bond line: `{i:3d}{j:3d}  {order}  0  0  0  0` -/
+def bondText (i j o : Nat) : Str :=
+  fmtD 3 i ++ fmtD 3 j ++ sL "  " ++ natDigits o ++ sL "  0  0  0  0\n"
+
 def writeWedgeLine (atoms : List WAtom) (w : Nat × Nat × Int) : R Str := do
   let (n, m, s) := w
   let i ← atomIndex atoms n
   let j ← atomIndex atoms m
   let o ← bondOrder atoms n m
-  pure (fmtD 3 i ++ fmtD 3 j ++ sL "  " ++ natDigits o ++ sL "  " ++ (if s == 1 then sL "1" else sL "6") ++ sL "  0  0  0\n")
+  pure (wedgeText i j o s)
 
 def inWedge (wedge : List (Nat × Nat × Int)) (n m : Nat) : Bool :=
   wedge.any fun w => (w.1 == n && w.2.1 == m) || (w.1 == m && w.2.1 == n)
@@ -263,7 +274,7 @@ def writeBondLine (atoms : List WAtom) (b : Nat × Nat × Nat) : R Str := do
   let (n, m, o) := b
   let i ← atomIndex atoms n
   let j ← atomIndex atoms m
-  pure (fmtD 3 i ++ fmtD 3 j ++ sL "  " ++ natDigits o ++ sL "  0  0  0  0\n")
+  pure (bondText i j o)
 
 /-- the `M  ISO / M  RAD / M  CHG` lines of atom number `n` (1-based position) -/
 def writePropLines (n : Nat) (a : WAtom) : List Str :=
